@@ -1,10 +1,8 @@
 // C11 — Relayer never skips a sequencer block on Celestia across any crash/restart.
 //
-// Deviation-bounded exploration of environment answers. The real relayer pipeline (real
-// `SubmissionStateAtStartup::new_from_path`, real `read::BlockStream`, real
-// `Relayer::{handle_latest_height, forward_block_for_submission}`, real `BlobSubmitter::run` with
-// the real `CelestiaClient` over loopback gRPC) runs under a paused tokio clock against a fake
-// Celestia app and a fake sequencer. Every RPC whose outcome matters is a *decision point*; a
+// Deviation-bounded exploration of environment answers. The real `Relayer::run` (state file read,
+// `read::BlockStream`, block forwarding, `BlobSubmitter::run` with the real `CelestiaClient`) runs
+// over in-memory gRPC under a paused tokio clock against a fake Celestia app and a fake sequencer. Every RPC whose outcome matters is a *decision point*; a
 // history is the list of answers given so far (accept / reject / time out with the tx lost or
 // kept / tx included, pending, evicted / crash now with each fate of the in-flight tx). A crash
 // aborts every relayer task, leaves a torn temp file next to the state file, and restarts the
@@ -1124,9 +1122,9 @@ fn verif_c11_crash() {
         "every history of <= {depth} environment answers with <= {max_cost} deviations from the default answer, for initial sequencer backlogs {:?}: \
          decision points are the account query of try_prepare {{ok, crash}}, BroadcastTx {{accept, reject, timeout with the tx lost / kept, crash \
          with the tx lost / kept}} and GetTx of a mempool tx {{included, pending, evicted, crash with the tx pending / included / evicted}}; a crash \
-         aborts every relayer task, leaves a torn temp file, and restarts from the state file on disk; the sequencer produces one more block per \
-         Celestia inclusion. Each history is replayed from scratch on the real pipeline (SubmissionStateAtStartup::new_from_path, read::BlockStream, \
-         Relayer::handle_latest_height / forward_block_for_submission, BlobSubmitter::run, CelestiaClient over loopback gRPC) under a paused clock. \
+         drops the relayer's whole runtime, leaves a torn temp file, and restarts from the state file on disk; the sequencer produces one more block per \
+         Celestia inclusion. Each history is replayed from scratch on the real Relayer::run (SubmissionStateAtStartup::new_from_path, read::BlockStream, \
+         block forwarding, BlobSubmitter::run, CelestiaClient over in-memory gRPC; latest heights through the verif hook) under a paused clock. \
          Oracle after every history: heights confirmed on the fake Celestia have no gap from the first relayed height, every submission carries \
          consecutive heights, the state file parses and the relayer restarts from it, and last_submission only names heights (and a Celestia height) \
          that were confirmed",
@@ -1192,7 +1190,8 @@ fn verif_c11_crash() {
     rep.set_extra("depth", J::i(depth));
     rep.set_extra("max_deviations", J::i(max_cost));
     rep.assume("crash = the relayer process stops (all tasks dropped) at an RPC boundary; every distinct combination of state-file content and Celestia-side fate of the in-flight BlobTx arises at one of these boundaries. Power loss (rename persisted before file data) is outside the model");
-    rep.assume("the select loop of Relayer::run is mirrored by the harness (the CometBFT chain-id check is skipped, latest heights come from a channel); every arm's body is the real method");
+    rep.assume("the CometBFT HTTP client of Relayer::run is replaced through the cfg(verif) hook: the chain-id check is skipped and latest heights come from a channel; everything else of run() is the real code");
+    rep.assume("fetching a sequencer block takes 50 virtual ms in the fake, so that how many blocks reach the next submission does not depend on real file-system latency");
     rep.finish();
 }
 
